@@ -14,7 +14,7 @@ CHECKS = {
         ref="DESIGN.md §5 C13"),
     "C18": dict(
         technique="Coq proof (loop invariant by induction on fuel for every oracle; termination by an explicit budget argument) + exhaustive correspondence of the Gallina loop against HomotopyMixin.optimize driven by scripted inner solves",
-        text="C18_protocol proves, for all options with theta_start in [0,1] and positive increments and for every success/failure oracle, that the trace of the modelled loop satisfies the decidable predicate trace_ok (first solve at theta_start, theta<=1, increase only after success, step back with halved increment after failure, success only by a solve at 1, failure exactly when the first solve fails or the halved increment drops below the minimum, seeding from the last accepted solve); C18_terminates gives an explicit bound on the number of solves. The real loop is run on all scripts up to length 7 (quick) / 11 (thorough) for 26 option triples and compared event by event with the model (dyadic options, exact) and with trace_ok evaluated in Coq (all options).",
+        text="C18_protocol proves, for all options with theta_start in [0,1] and positive increments and for every success/failure oracle, that the trace of the modelled loop satisfies the decidable predicate trace_ok (first solve at theta_start, theta<=1, increase only after success, step back with halved increment after failure, success only by a solve at 1, failure exactly when the first solve fails or the halved increment drops below the minimum, seeding from the last accepted solve); C18_terminates gives an explicit bound on the number of solves. The real loop is run on all scripts up to length 7 (quick) / 11 (thorough) for 26 option triples and compared event by event with the model (dyadic options, exact) and with trace_ok evaluated in Coq (all options). Homotopy around goal programming (HomotopyGp.v): C18_gp_refines proves that the nested loop is the homotopy loop whose n-th inner solve succeeds iff every priority of the n-th step did (so C18_protocol carries over, C18_gp_protocol), C18_gp_seeds that the first priority of a step starts from the final solution of the last fully successful step and never from a rejected one; the real HomotopyMixin over GoalProgrammingMixin is run with a scripted solver returning tagged solutions and compared solve by solve with the model.",
         note="Trusted: Coq kernel + vm_compute; the scripted inner optimize() standing in for the solver; binary64 rounding is not modelled (non-dyadic options are judged by trace_ok with tol 1e-9 only). No axioms. The unrepaired loop violated the property (fixed in /repo 9c3aba5, see known_findings.json).",
         ref="DESIGN.md §5 C18"),
     "C10": dict(
@@ -49,13 +49,13 @@ CHECKS = {
         ref='DESIGN.md §5 C06'),
     "C07": dict(
         technique='Coq proof (non-interference of members in the transcription model; disjoint member blocks; default control sharing) + executable Gallina model of the scenario tree compared with ControlTreeMixin / PlanningMixin, metamorphic isolation runs on transcribe()',
-        text="C07_reads_only_own_slots, C07_member_blocks_disjoint, C07_data_isolated, C07_default_sharing are proved for all problems, C07_children_partition / C07_children_cover (children of a scenario-tree branch partition its members) for all distance functions, branching factors and member lists; ControlTree.v mirrors branch()/discretize_control and is compared (tree and sharing classes) with the real mixins on generated forecasts with ties, duplicates and coinciding prefixes, and every case is judged by 'share iff same branch', 'children partition the parent', 'at most k children', 'coinciding forecasts stay together'; isolation is additionally tested metamorphically on the implementation (perturb the last member, all other members' rows and boxes unchanged).",
-        note='Trusted: Coq kernel + vm_compute; harness generators / AST printers (the same AST is built in CasADi and printed as Gallina); transcribe() observed through nlp g/f/lbg/ubg/lbx/ubx at rational probe vectors (1e-8 relative; binary64 rounding not modelled); integrate_states, lookup tables, vector-valued variables and delayed feedback are outside this model. No axioms. The partition / monotonicity theorems for the tree model itself are not proved yet (checked per case); np.int16 index arrays are not modelled.',
+        text="C07_reads_only_own_slots, C07_member_blocks_disjoint, C07_data_isolated, C07_default_sharing are proved for all problems, C07_children_partition / C07_children_cover (children of a scenario-tree branch partition its members) for all distance functions, branching factors and member lists, C07_coinciding_same_child / C07_not_separated_before (members whose forecasts coincide on the deciding segments - distance 0 to each other, equal distances to all others, for any symmetric non-negative distance - are put into the same child, and over the whole tree are not separated by any branch up to that depth, whatever k, the ties and the other members); ControlTree.v mirrors branch()/discretize_control and is compared (tree and sharing classes) with the real mixins on generated forecasts with ties, duplicates and coinciding prefixes, and every case is judged by 'share iff same branch', 'children partition the parent', 'at most k children', 'coinciding forecasts stay together'; isolation is additionally tested metamorphically on the implementation (perturb the last member, all other members' rows and boxes unchanged).",
+        note='Trusted: Coq kernel + vm_compute; harness generators / AST printers (the same AST is built in CasADi and printed as Gallina); transcribe() observed through nlp g/f/lbg/ubg/lbx/ubx at rational probe vectors (1e-8 relative; binary64 rounding not modelled); integrate_states, lookup tables, vector-valued variables and delayed feedback are outside this model. No axioms. The hypotheses of the coinciding-members theorems (symmetric, non-negative distances) are checked on every distance table handed to the model; np.int16 index arrays are not modelled.',
         ref='DESIGN.md §5 C07'),
     "C08": dict(
         technique='Coq proof (rows factor through the physical view; rescaling lemmas; bounds physical) + metamorphic pairs of real problems differing only in nominals',
         text='C08_rows_factor_through_physical_view, C08_rescaling, C08_bounds_physical are proved for all problems; pairs of generated problems differing only in nominals (2^-10..2^10, non-dyadic) are transcribed and must give equal rows / objective at corresponding decision vectors and equal physical boxes, and each is compared with the model.',
-        note="Trusted: Coq kernel + vm_compute; harness generators / AST printers (the same AST is built in CasADi and printed as Gallina); transcribe() observed through nlp g/f/lbg/ubg/lbx/ubx at rational probe vectors (1e-8 relative; binary64 rounding not modelled); integrate_states, lookup tables, vector-valued variables and delayed feedback are outside this model. No axioms. Goal function nominals and the simulator's physical-unit accessors are covered by the C03/C17 and C09 checks.",
+        note="Trusted: Coq kernel + vm_compute; harness generators / AST printers (the same AST is built in CasADi and printed as Gallina); transcribe() observed through nlp g/f/lbg/ubg/lbx/ubx at rational probe vectors (1e-8 relative; binary64 rounding not modelled); integrate_states, lookup tables, vector-valued variables and delayed feedback are outside this model. No axioms. Seeds (x0 * nominal = the seed given) and own-grid controls are part of the metamorphic pairs. Goal function nominals and the simulator's physical-unit accessors are covered by the C03/C17 and C09 checks.",
         ref='DESIGN.md §5 C08'),
     "C04": dict(
         technique="Coq proof (envelope algebra of the soft constraint rows for all nominals; critical goals as hard intervals; validation = well-formedness by boolean reflection) + correspondence of the Gallina validation model against _gp_validate_goals and real multi-priority solves judged by the envelope",
